@@ -13,6 +13,7 @@ usage: x_pkg.py <out.v> <out.json>
 """
 import ast
 import collections
+import copy
 import collections.abc
 import enum
 import json
@@ -142,6 +143,9 @@ def hexpr(e, var):
 PRIMS = {"(bool, int, str, float)", "(bool, int, float, str)", "(int, bool, str, float)", "(str, int, float, bool)", "(bool, str, int, float)"}
 
 
+_depth = [0]
+
+
 def cond(c, var):
     if isinstance(c, ast.Compare) and len(c.ops) == 1:
         op, l, r = c.ops[0], c.left, c.comparators[0]
@@ -175,6 +179,18 @@ def cond(c, var):
         return r
     if isinstance(c, ast.UnaryOp) and isinstance(c.op, ast.Not):
         return "(CNot %s)" % cond(c.operand, var)
+    if isinstance(c, ast.Call) and isinstance(c.func, ast.Name) and not c.keywords and c.func.id in funcs and len(funcs[c.func.id]) == 1:
+        # a helper predicate defined in _hooks.py whose body is one pure return expression: inline it
+        fn = funcs[c.func.id][0]
+        body = [st for st in fn.body if not (isinstance(st, ast.Expr) and isinstance(st.value, ast.Constant))]
+        params = [a.arg for a in fn.args.args]
+        if (len(body) == 1 and isinstance(body[0], ast.Return) and body[0].value is not None and len(params) == len(c.args) and not fn.decorator_list
+                and not fn.args.vararg and not fn.args.kwarg and not fn.args.kwonlyargs and pure(body[0].value) and _depth[0] < 4):
+            _depth[0] += 1
+            try:
+                return cond(subst(body[0].value, dict(zip(params, c.args))), var)
+            finally:
+                _depth[0] -= 1
     raise Reject("hook condition outside grammar: " + ast.unparse(c))
 
 
@@ -195,14 +211,22 @@ def rexpr(e, var):
     if isinstance(e, ast.Call) and not e.keywords:
         f = ast.unparse(e.func)
         if f == "converter.structure" and len(e.args) == 2:
+            if isinstance(e.args[1], ast.IfExp):      # structure(x, A if c else B)  ==  structure(x, A) if c else structure(x, B)
+                te = e.args[1]
+                mk = lambda t: ast.Call(func=e.func, args=[e.args[0], t], keywords=[])
+                return "(RIf %s %s %s)" % (cond(te.test, var), rexpr(mk(te.body), var), rexpr(mk(te.orelse), var))
             return "(RStruct %s %s)" % (hexpr(e.args[0], var), ty(lsp_type(e.args[1])))
         if f == "str" and len(e.args) == 1:
             return "(RStr %s)" % hexpr(e.args[0], var)
         if f == "int" and len(e.args) == 1:
             return "(RIntOf %s)" % hexpr(e.args[0], var)
     if (isinstance(e, ast.ListComp) and len(e.generators) == 1 and not e.generators[0].ifs and not e.generators[0].is_async
-            and isinstance(e.generators[0].target, ast.Name) and e.generators[0].target.id == "item"):
-        return "(RMap %s %s)" % (hexpr(e.generators[0].iter, var), rexpr(e.elt, var))
+            and isinstance(e.generators[0].target, ast.Name) and e.generators[0].target.id != var):
+        tgt = e.generators[0].target.id
+        elt = e.elt if tgt == "item" else subst(e.elt, {tgt: ast.Name(id="item", ctx=ast.Load())})
+        if tgt != "item" and any(isinstance(n, ast.Name) and n.id == "item" for n in ast.walk(e.elt)):
+            raise Reject("comprehension uses both 'item' and another loop variable")
+        return "(RMap %s %s)" % (hexpr(e.generators[0].iter, var), rexpr(elt, var))
     if isinstance(e, ast.IfExp):
         return "(RIf %s %s %s)" % (cond(e.test, var), rexpr(e.body, var), rexpr(e.orelse, var))
     if isinstance(e, ast.Tuple):
@@ -210,21 +234,118 @@ def rexpr(e, var):
     raise Reject("hook return outside grammar: " + ast.unparse(e))
 
 
-def block(stmts, var, k):
+class _Subst(ast.NodeTransformer):
+    def __init__(self, env):
+        self.env = env
+
+    def visit_Name(self, node):
+        if isinstance(node.ctx, ast.Load) and node.id in self.env:
+            return copy.deepcopy(self.env[node.id])
+        return node
+
+
+def subst(e, env):
+    return _Subst(env).visit(copy.deepcopy(e)) if env else e
+
+
+def pure(e):
+    """expressions a local may be bound to: built from names, constants, subscripts, comparisons, boolean operators, conditional
+    expressions, attribute access on lsp_types and the side-effect-free calls isinstance / len"""
+    for n in ast.walk(e):
+        if isinstance(n, ast.Call):
+            if not (isinstance(n.func, ast.Name) and n.func.id in ("isinstance", "len")):
+                return False
+        elif isinstance(n, (ast.Lambda, ast.ListComp, ast.SetComp, ast.DictComp, ast.GeneratorExp, ast.Await, ast.Yield, ast.YieldFrom, ast.NamedExpr, ast.Starred)):
+            return False
+    return True
+
+
+def terminal(stmts):
+    if not stmts:
+        return False
+    l = stmts[-1]
+    return isinstance(l, (ast.Return, ast.Raise)) or (isinstance(l, ast.If) and terminal(l.body) and terminal(l.orelse))
+
+
+def static_truth(t):
+    """x is None / x is not None where x is the constant None or an lsp_types attribute (after substitution of a table lookup)"""
+    if isinstance(t, ast.Compare) and len(t.ops) == 1 and isinstance(t.ops[0], (ast.Is, ast.IsNot)) \
+            and isinstance(t.comparators[0], ast.Constant) and t.comparators[0].value is None:
+        l = t.left
+        known = True if (isinstance(l, ast.Constant) and l.value is None) else (False if (isinstance(l, ast.Attribute) and ast.unparse(l).startswith("lsp_types.")) else None)
+        if known is None:
+            return None
+        return known if isinstance(t.ops[0], ast.Is) else not known
+    return None
+
+
+# constant {str: lsp_types.X} tables assigned to a name somewhere in _hooks.py
+tables = {}
+for _n in ast.walk(tree):
+    if (isinstance(_n, ast.Assign) and len(_n.targets) == 1 and isinstance(_n.targets[0], ast.Name) and isinstance(_n.value, ast.Dict) and _n.value.keys
+            and all(isinstance(k_, ast.Constant) and isinstance(k_.value, str) for k_ in _n.value.keys)
+            and all(isinstance(v_, ast.Attribute) and ast.unparse(v_).startswith("lsp_types.") for v_ in _n.value.values)):
+        if _n.targets[0].id in tables:
+            tables[_n.targets[0].id] = None
+        else:
+            tables[_n.targets[0].id] = [(k_.value, v_) for k_, v_ in zip(_n.value.keys, _n.value.values)]
+tables = {k_: v_ for k_, v_ in tables.items() if v_ is not None}
+
+
+def block(stmts, var, k, env=None):
+    env = env or {}
     if not stmts:
         return k
     s, rest = stmts[0], stmts[1:]
     if isinstance(s, ast.Expr) and isinstance(s.value, ast.Constant):
-        return block(rest, var, k)
+        return block(rest, var, k, env)
+    if (isinstance(s, ast.Assign) and len(s.targets) == 1 and isinstance(s.targets[0], ast.Name) and s.targets[0].id not in (var, "converter", "item", "lsp_types")
+            and pure(s.value)):
+        # a local bound once to a pure expression: substitute it.  The binding is evaluated exactly once, BEFORE what follows, and may
+        # raise (object_[0] on an empty list): the translation forces its evaluation at the same point with a branch whose two arms
+        # are the same continuation, so an error of the binding is an error of the hook in the model as well.
+        name = s.targets[0].id
+        if any(isinstance(n, ast.Name) and n.id == name and isinstance(n.ctx, ast.Store) for st in rest for n in ast.walk(st)):
+            raise Reject("local %s assigned more than once" % name)
+        val = subst(s.value, env)
+        kk = block(rest, var, k, dict(env, **{name: val}))
+        if isinstance(val, ast.IfExp):
+            force = cond(val.test, var)
+        else:
+            try:
+                force = cond(val, var)
+            except Reject:
+                force = "(CIsNone %s)" % hexpr(val, var)
+        return "(TIf %s %s %s)" % (force, kk, kk)
+    if (isinstance(s, ast.Assign) and len(s.targets) == 1 and isinstance(s.targets[0], ast.Name) and isinstance(s.value, ast.Call)
+            and isinstance(s.value.func, ast.Attribute) and s.value.func.attr == "get" and isinstance(s.value.func.value, ast.Name)
+            and len(s.value.args) == 1 and not s.value.keywords and s.value.func.value.id in tables):
+        # t = TABLE.get(<expr>) for a constant {str: lsp type} table of _hooks.py: a chain of string comparisons in table order,
+        # t bound to the type on a hit and to None otherwise (a non-string key makes every comparison false, like dict.get)
+        name, key = s.targets[0].id, subst(s.value.args[0], env)
+        if any(isinstance(n, ast.Name) and n.id == name and isinstance(n.ctx, ast.Store) for st in rest for n in ast.walk(st)):
+            raise Reject("local %s assigned more than once" % name)
+        r = block(rest, var, k, dict(env, **{name: ast.Constant(value=None)}))
+        for kstr, vexpr in reversed(tables[s.value.func.value.id]):
+            r = "(TIf (CEqStr %s %s) %s %s)" % (hexpr(key, var), q(kstr), block(rest, var, k, dict(env, **{name: vexpr})), r)
+        return r
+    if env:
+        s = _Subst(env).visit(copy.deepcopy(s)) if not isinstance(s, (ast.If,)) else ast.If(test=subst(s.test, env), body=s.body, orelse=s.orelse)
     if isinstance(s, ast.Return):
         return "(TRet %s)" % (rexpr(s.value, var) if s.value is not None else "RNone")
     if isinstance(s, ast.Raise):
         return "TRaise"
     if isinstance(s, ast.Assert):
-        return "(TIf %s %s TRaise)" % (cond(s.test, var), block(rest, var, k))
+        return "(TIf %s %s TRaise)" % (cond(s.test, var), block(rest, var, k, env))
     if isinstance(s, ast.If):
-        kk = block(rest, var, k)
-        return "(TIf %s %s %s)" % (cond(s.test, var), block(s.body, var, kk), block(s.orelse, var, kk))
+        st = static_truth(s.test)
+        if st is not None:
+            chosen = s.body if st else s.orelse
+            if terminal(chosen):
+                return block(chosen, var, k, env)           # what follows the if is unreachable on this path
+            return block(chosen, var, block(rest, var, k, env), env)
+        kk = block(rest, var, k, env)
+        return "(TIf %s %s %s)" % (cond(s.test, var), block(s.body, var, kk, env), block(s.orelse, var, kk, env))
     raise Reject("hook statement outside grammar: " + ast.unparse(s))
 
 
